@@ -60,12 +60,36 @@ def call(f, *a, **k):
         return ("err", e)
 
 
+def abbr(s: str) -> str:
+    """Long member VALUES (RSA numbers, coordinates, thumbprints) are handed to the
+    model as head~sha1 tokens: the exporting functions only copy values, never inspect
+    them, and the abbreviation is injective (up to sha1 collisions) and applied to
+    inputs and recorded outputs alike.  Keeps the generated Coq files small."""
+    if len(s) <= 28:
+        return s
+    return s[:10] + "~" + hashlib.sha1(s.encode("utf-8", "surrogatepass")).hexdigest()[:12]
+
+
+def c_val(v) -> str:
+    if isinstance(v, str):
+        return "(PStr %s)" % c_str(abbr(v))
+    if isinstance(v, (list, tuple)):
+        return "(PList %s)" % c_list([c_val(x) for x in v])
+    if isinstance(v, dict):
+        return "(PDict %s)" % c_kd(v)
+    return c_pv(v)
+
+
+def c_thumb(t: str) -> str:
+    return c_str(abbr(t))
+
+
 def c_kd(d: dict) -> str:
     items = []
     for k, v in d.items():
         if not isinstance(k, str):
             raise TypeError("non-str member name %r" % (k,))
-        items.append("(%s, %s)" % (c_str(k), c_pv(v)))
+        items.append("(%s, %s)" % (c_str(k), c_val(v)))
     return c_list(items)
 
 
@@ -602,7 +626,12 @@ def run(ctx):
 
     cases, meta = [], []
 
+    seen_terms = set()
+
     def add(term, m):
+        if term in seen_terms:       # same model input and same recorded outcome: evaluate once
+            return
+        seen_terms.add(term)
         cases.append(term)
         meta.append(m)
 
@@ -714,9 +743,12 @@ def run(ctx):
         key = e.fresh()
         d0 = dict(key.dict_value)
         rawpriv = key.is_private
-        privs = PRIV_MAIN + (PRIV_ODD if (not ctx.quick or rng.random() < 0.4) else [rng.choice(PRIV_ODD)])
-        for pv in privs:
-            for ps in (PARAM_SETS if pv in PRIV_MAIN else [rng.choice(PARAM_SETS)]):
+        combos = [(False, ps) for ps in PARAM_SETS]
+        for pv in (None, True):
+            combos += [(pv, {})] + [(pv, ps) for ps in (PARAM_SETS[1:] if not ctx.quick else [rng.choice(PARAM_SETS[1:])])]
+        combos += [(pv, rng.choice(PARAM_SETS)) for pv in (PRIV_ODD if not ctx.quick else rng.sample(PRIV_ODD, 2))]
+        for pv, ps in combos:
+            if True:
                 r = call(lambda: key.as_dict(private=pv, **ps))
                 if r[0] == "ok" and not isinstance(r[1], dict):
                     r = ("err", TypeError("not a dict"))
@@ -742,7 +774,7 @@ def run(ctx):
         ctx.note_case(("thumb", e.name))
         dist["thumb_cases"] += 1
         # ensure_kid
-        thumbs = "[(%s, %s)]" % (c_kd(dict(shim.calls[0])), c_str(t[1])) if t[0] == "ok" and shim.calls else "[]"
+        thumbs = "[(%s, %s)]" % (c_kd(dict(shim.calls[0])), c_thumb(t[1])) if t[0] == "ok" and shim.calls else "[]"
         r = call(lambda: (key.ensure_kid(), dict(key.dict_value))[1])
         add("CEnsureKid %s %s %s %s" % (kind_of(e), c_kd(d0), thumbs, c_res(r, c_kd)), ("ensure_kid", e.name))
         ctx.note_case(("ensure_kid", e.name))
@@ -781,7 +813,7 @@ def run(ctx):
             if "kid" not in d:
                 with thumb_hook() as shim:
                     t = k.thumbprint()
-                thumbs.append("(%s, %s)" % (c_kd(dict(shim.calls[0])), c_str(t)))
+                thumbs.append("(%s, %s)" % (c_kd(dict(shim.calls[0])), c_thumb(t)))
         pv = rng.choice([False, False, False, None, True] + ([0] if i % 7 == 0 else []))
         ps = rng.choice([{}, {}, {"use": "sig"}, dict(CALLER_PARAMS), {"k": "caller-k", "d": "caller-d"}])
         r = call(lambda: KeySet(keys).as_dict(private=pv, **ps)["keys"])
@@ -865,8 +897,10 @@ def run(ctx):
 
     # ---- correspondence: model (vm_compute) vs recorded implementation behaviour
     ev = lib.CoqEval(["From Model Require Import Base PyVal TableTypes C12Keys C12Cases."], "c12case", "c12_check", "c12_show",
-                     shard=120, max_chars=200000)
-    res = ev.run(cases)
+                     shard=150, max_chars=60000)
+    res = ev.run(cases, jobs=6)
+    dist["coq_cases_distinct"] = len(cases)
+    dist["coq_case_chars"] = sum(len(c) for c in cases)
     ctx.coverage["traces_validated_against_impl"] = res["evaluated"]
     ctx.coverage["disagreements_checked"] = len(res["failing"])
     direct = len(ctx.violations)
